@@ -1,8 +1,82 @@
 """Symbolic stand-in for the subset of pandas the repository uses (`SymFrame`)."""
 from __future__ import annotations
 
-from ..sx.sym import Unsupported
+from ..sx.sym import Unsupported, Q, concrete, is_intlike
 from .np_shim import SymArray, SymRec, asarray, _is_scalar
+
+
+def _plain(a: SymArray) -> SymArray:
+    """The values of a Series as a plain array sharing the Series' buffer (what `np.asarray(series)` is)."""
+    r = SymArray([], a.dtype_tag)
+    r.d = a.d
+    return r
+
+
+class SymSeries(SymArray):
+    """A column read from a frame whose index labels are not 0..n-1 in row order (after `sort_values`, a row filter,
+    `dropna` ...).  Element access with an integer is by *label*, not position (`s[0]` is the row labelled 0, KeyError if
+    there is none); slices, masks, iteration, `len` and every numpy / scipy function are positional.  Arithmetic keeps the
+    labels (same-index operands align position by position; different labels are outside the model)."""
+
+    def __init__(self, data, dtype, labels):
+        super().__init__(list(data), dtype)
+        self.labels = list(labels)
+        if len(self.labels) != len(self.d):
+            raise ValueError("Length of values does not match length of index")
+
+    def _wrap(self, r):
+        if isinstance(r, SymArray) and not isinstance(r, SymSeries) and r.ndim == 1 and len(r.d) == len(self.labels):
+            return SymSeries(r.d, r.dtype_tag, self.labels)
+        return r
+
+    def __getitem__(self, i):
+        if _is_scalar(i) and not isinstance(i, bool):
+            c = concrete(i)
+            if c is None:
+                raise Unsupported("symbolic label lookup in a Series")
+            if c.denominator == 1 and int(c) in self.labels:
+                return self.d[self.labels.index(int(c))]
+            raise KeyError(int(c) if c.denominator == 1 else float(c))
+        pos = SymArray([Q(j) for j in range(len(self.d))], "i8")[i]
+        if isinstance(pos, SymArray):
+            idx = [int(p) for p in pos.d]
+            return SymSeries([self.d[j] for j in idx], self.dtype_tag, [self.labels[j] for j in idx])
+        return self.d[int(pos)]
+
+    @property
+    def iloc(self):
+        return _plain(self)
+
+    @property
+    def index(self):
+        return SymArray([Q(x) for x in self.labels], "i8")
+
+    @property
+    def values(self):
+        return _plain(self)
+
+    def to_numpy(self, dtype=None, copy=False):
+        return SymArray(list(self.d), self.dtype_tag)
+
+    def __sx_plain__(self):
+        return _plain(self)
+
+    def copy(self):
+        return SymSeries(list(self.d), self.dtype_tag, self.labels)
+
+    def reset_index(self, drop=False):
+        if not drop:
+            raise Unsupported("Series.reset_index(drop=False)")
+        return SymArray(list(self.d), self.dtype_tag)
+
+    def _map(self, f, dtype=None):
+        return self._wrap(SymArray._map(self, f, dtype))
+
+    def _bin(self, o, f, dtype=None, reflected=False):
+        if isinstance(o, SymSeries) and o.labels != self.labels:
+            raise Unsupported("arithmetic between Series with different index labels (alignment is not modelled)")
+        r = SymArray._bin(self, _plain(o) if isinstance(o, SymSeries) else o, f, dtype)
+        return self._wrap(r)
 
 
 class SymFrame:
@@ -12,11 +86,14 @@ class SymFrame:
     is what the non-mutation claims of C09 rest on."""
     __array_priority_sx__ = True
 
-    def __init__(self, data=None, columns=None):
+    def __init__(self, data=None, columns=None, index=None):
         self.cols = {}
+        self.index_labels = None if index is None else [int(x) for x in index]   # None: RangeIndex 0..n-1
         if data is None:
             return
         if isinstance(data, SymFrame):
+            if index is None:
+                self.index_labels = None if data.index_labels is None else list(data.index_labels)
             for k, v in data.cols.items():
                 self.cols[k] = v.copy()
         elif isinstance(data, SymRec):
@@ -60,16 +137,40 @@ class SymFrame:
     def __getattr__(self, name):
         cols = self.__dict__.get("cols", {})
         if name in cols:
-            return cols[name]
+            return self._col(cols[name])
         raise AttributeError(name)
+
+    def _labelled(self):
+        lab = self.__dict__.get("index_labels")
+        return lab is not None and lab != list(range(len(lab)))
+
+    def _col(self, a):
+        """A column as the caller sees it: the array itself under the default index, a label-carrying Series (sharing
+        the column's buffer) otherwise."""
+        if not self._labelled():
+            return a
+        r = SymSeries([], a.dtype_tag, [])
+        r.d = a.d
+        r.labels = list(self.index_labels)
+        return r
+
+    def _sub(self, idx):
+        out = SymFrame()
+        for c, a in self.cols.items():
+            out.cols[c] = SymArray([a.d[j] for j in idx], a.dtype_tag)
+        lab = self.index_labels if self.index_labels is not None else list(range(len(self)))
+        out.index_labels = [lab[j] for j in idx]
+        if out.index_labels == list(range(len(idx))):
+            out.index_labels = None
+        return out
 
     def __getitem__(self, k):
         if isinstance(k, str):
             if k not in self.cols:
                 raise KeyError(k)
-            return self.cols[k]
+            return self._col(self.cols[k])
         if isinstance(k, list):
-            out = SymFrame()
+            out = SymFrame(index=self.index_labels)
             for c in k:
                 if c not in self.cols:
                     raise KeyError(f"{c} not in index")
@@ -81,10 +182,7 @@ class SymFrame:
             if len(k) != len(self):
                 raise ValueError("Item wrong length")
             idx = [j for j, m in enumerate(k.d) if bool(m)]   # splits the path per row
-            out = SymFrame()
-            for c, a in self.cols.items():
-                out.cols[c] = SymArray([a.d[j] for j in idx], a.dtype_tag)
-            return out
+            return self._sub(idx)                                # the kept rows keep their labels, like pandas
         raise Unsupported(f"DataFrame indexing with {type(k).__name__}")
 
     def __setitem__(self, k, v):
@@ -94,6 +192,11 @@ class SymFrame:
             from .np_shim import NP
             v = NP().full(len(self), v)
         v = asarray(v)
+        if isinstance(v, SymSeries):
+            lab = self.index_labels if self.index_labels is not None else list(range(len(self)))
+            if self.cols and v.labels != lab:
+                raise Unsupported("column assignment from a Series with other index labels (alignment is not modelled)")
+            v = _plain(v)
         if self.cols and len(v) != len(self):
             raise ValueError(f"Length of values ({len(v)}) does not match length of index ({len(self)})")
         self.cols[k] = v.copy()
@@ -108,13 +211,23 @@ class SymFrame:
     def dropna(self, subset=None, how="any"):
         cols = subset or list(self.cols)
         keep = [j for j in range(len(self)) if not any(isinstance(self.cols[c].d[j], _NA) for c in cols)]
-        out = SymFrame()
-        for c, a in self.cols.items():
-            out.cols[c] = SymArray([a.d[j] for j in keep], a.dtype_tag)
-        return out
+        return self._sub(keep)
 
     def reset_index(self, drop=False):
-        return self.copy()
+        if not drop and self._labelled():
+            raise Unsupported("reset_index(drop=False) on a labelled frame")
+        out = self.copy()
+        out.index_labels = None
+        return out
+
+    @property
+    def index(self):
+        lab = self.index_labels if self.index_labels is not None else list(range(len(self)))
+        return SymArray([Q(x) for x in lab], "i8")
+
+    @property
+    def iloc(self):
+        return _ILoc(self)
 
     def __copy__(self):
         return self.copy()
@@ -128,7 +241,7 @@ class SymFrame:
         return SymRec({k: v.copy() for k, v in self.cols.items()})
 
     def rename(self, columns=None):
-        out = SymFrame()
+        out = SymFrame(index=self.index_labels)
         for k, v in self.cols.items():
             out.cols[(columns or {}).get(k, k)] = v.copy()
         return out
@@ -140,7 +253,10 @@ class SymFrame:
 def concat(frames, axis=0):
     if axis != 1:
         raise Unsupported("pd.concat axis=0")
-    out = SymFrame()
+    labs = [f.index_labels for f in frames if isinstance(f, SymFrame)]
+    if any(x != labs[0] for x in labs):
+        raise Unsupported("pd.concat(axis=1) of frames with different index labels (alignment is not modelled)")
+    out = SymFrame(index=labs[0] if labs else None)
     n = None
     for f in frames:
         if n is not None and len(f) != n:
@@ -176,6 +292,16 @@ class _Loc:
         if cols is not None:
             out = out[cols] if isinstance(cols, list) else out[cols]
         return out
+
+
+class _ILoc:
+    def __init__(self, frame):
+        self.frame = frame
+
+    def __getitem__(self, k):
+        if isinstance(k, slice):
+            return self.frame._sub(list(range(len(self.frame)))[k])
+        raise Unsupported("DataFrame.iloc with a non-slice key")
 
 
 class _NA:
